@@ -655,6 +655,9 @@ func helperGoTest(fn string, arg int) string {
 // Replay
 
 func replay(class string, raw json.RawMessage) (string, bool) {
+	if class == "C11:unpack-receiver-reuse" {
+		return replayReuse(raw)
+	}
 	var in caseInput
 	if err := json.Unmarshal(raw, &in); err != nil {
 		return "cannot decode input: " + err.Error(), false
@@ -905,6 +908,8 @@ func run(r *enumlib.Run) {
 	c.helperSpace("Hops(Control2Hops)", 256, "Control2Hops(h).Hops() == min(h,7) for h = 0..255")
 	c.helperSpace("IsGroupAddr", 256, "ControlField2(o).IsGroupAddr() for all 256 octets = b7")
 	c.helperSpace("IsGroupCommand", 256, "APCI(v).IsGroupCommand() for v = 0..255; judged for the 16 four-bit codes (true exactly for 0, 1, 2)")
+
+	c.reuseSpace()
 
 	// all control octet pairs
 	nsh, infoLens := 2, []int{0}
